@@ -108,11 +108,23 @@ class Harness:
         self.mod_snapshot = [(m, dict(m.__dict__)) for m in self.mods]
         # one full sequential creation: resolves everything, gives the reference observation
         self.battery = [b for b in make_battery(3) if b[0] in ("SelectionRange", "Position", "Location", "DefinitionResponse")]
+        # values that go through hooks whose *registration* reads resolved field types
+        self.battery += [
+            ("NotebookCellTextDocumentFilter", {"notebook": "jupyter"}),
+            ("NotebookCellTextDocumentFilter", {"notebook": {"notebookType": "jupyter-notebook"}, "language": "python"}),
+            ("TextDocumentRegistrationOptions", {"documentSelector": [{"notebook": {"scheme": "file"}, "language": "python"}, {"language": "rust"}]}),
+            ("NotebookDocumentSyncOptions", {"notebookSelector": [{"notebook": {"notebookType": "n"}, "cells": [{"language": "python"}]}]}),
+        ]
+        if registry_mode != "reduced":
+            self.battery += make_battery(2)
         c = converters.get_converter()
         self.reference = observe(c, self.battery, lsp)
         self.mode = registry_mode
         if registry_mode == "reduced":
-            self.names = ["SelectionRange", "Range", "Position", "LSPAny"]
+            # closure under annotation references of: a recursive class; the class whose resolved field type
+            # is read while hooks are registered; a class whose annotation nests forward references inside
+            # a union that needs a registered hook (unresolved, the hook lookup by type equality fails)
+            self.names = self.closure(["SelectionRange", "NotebookCellTextDocumentFilter", "NotebookDocumentSyncOptions"]) + ["LSPAny"]
         else:
             self.names = [n for n in self.full if n != "__builtins__"]
         self._cache = {}
@@ -126,6 +138,40 @@ class Harness:
                     m.__dict__[k] = cl
                     self.locks.append(cl)
         self.mod_snapshot = [(m, dict(m.__dict__)) for m in self.mods]
+
+    def closure(self, seeds):
+        import re as _re
+        import typing as _t
+        done, todo = [], list(seeds)
+
+        def names_in(t, acc, depth=0):
+            if depth > 8:
+                return
+            if isinstance(t, str):
+                acc.update(_re.findall(r"[A-Za-z_][A-Za-z0-9_]*", t))
+            elif isinstance(t, _t.ForwardRef):
+                acc.update(_re.findall(r"[A-Za-z_][A-Za-z0-9_]*", t.__forward_arg__))
+            elif isinstance(t, type):
+                acc.add(t.__name__)
+            else:
+                for a in _t.get_args(t) or ():
+                    names_in(a, acc, depth + 1)
+        while todo:
+            n = todo.pop(0)
+            if n in done or n not in self.full:
+                continue
+            done.append(n)
+            acc = set()
+            obj = self.full[n]
+            if n in self.orig:
+                for a, t in self.orig[n]:
+                    names_in(t, acc)
+            else:
+                names_in(obj, acc)
+            for m in sorted(acc):
+                if m in self.full and m not in done:
+                    todo.append(m)
+        return done
 
     def is_point(self, code):
         r = self._cache.get(code)
